@@ -414,3 +414,129 @@ func sameValue(a, b value) bool {
 	}
 	return false
 }
+
+// tryChain merges chains of branches that share a target: the lowering of
+// `case a, b, c:` and of `x == a || x == b` (all true-edges lead to the same
+// block) and of `x != a && x != b` (all false-edges lead to the same block).
+// The chain's conditions are combined into one disjunction / conjunction so
+// that a switch on a symbolic byte forks once per case body, not once per
+// case value.
+func (in *interp) tryChain(fr *frame, instr *ssa.If, c Sym) bool {
+	if in.path == nil || in.cfg.noIfConv || in.speculating {
+		return false
+	}
+	b := instr.Block()
+	for pol := 0; pol < 2; pol++ {
+		shared := b.Succs[pol] // pol 0: shared true target (or-chain); 1: shared false target (and-chain)
+		cur := b.Succs[1-pol]
+		if cur == shared {
+			continue
+		}
+		cond := c.T
+		last := b
+		preds := []*ssa.BasicBlock{b}
+		n := 0
+		ok := true
+		func() {
+			defer func() {
+				if r := recover(); r != nil {
+					if a, isAbort := r.(abortPath); isAbort && a.kind != abortSpec {
+						in.speculating = false
+						panic(r)
+					}
+					ok = false
+				}
+			}()
+			in.speculating = true
+			defer func() { in.speculating = false }()
+			for n < 64 {
+				if len(cur.Preds) != 1 || len(cur.Succs) != 2 || cur.Succs[pol] != shared || cur == b {
+					break
+				}
+				pure := true
+				for _, ins := range cur.Instrs {
+					if _, isPhi := ins.(*ssa.Phi); isPhi || !pureInstr(ins) {
+						pure = false
+						break
+					}
+				}
+				if !pure {
+					break
+				}
+				var cv value
+				for _, ins := range cur.Instrs {
+					if t, isIf := ins.(*ssa.If); isIf {
+						cv = fr.get(t.Cond)
+						break
+					}
+					in.visitInstr(fr, ins)
+				}
+				var ct *Term
+				switch x := cv.(type) {
+				case bool:
+					ct = in.tt.Bool(x)
+				case Sym:
+					ct = x.T
+				default:
+					ok = false
+					return
+				}
+				if pol == 0 {
+					cond = in.tt.Or(cond, ct)
+				} else {
+					cond = in.tt.And(cond, ct)
+				}
+				last = cur
+				preds = append(preds, cur)
+				cur = cur.Succs[1-pol]
+				n++
+			}
+		}()
+		if !ok || n == 0 {
+			continue
+		}
+		// φ-nodes of the shared target must not distinguish the chain members
+		if first := fr.info.firstNonPhi[shared]; first > 0 {
+			same := true
+			for _, ins := range shared.Instrs[:first] {
+				phi := ins.(*ssa.Phi)
+				var v0 value
+				set := false
+				for i, p := range shared.Preds {
+					member := false
+					for _, q := range preds {
+						if q == p {
+							member = true
+						}
+					}
+					if !member {
+						continue
+					}
+					v := fr.get(phi.Edges[i])
+					if !set {
+						v0, set = v, true
+					} else if !sameValue(v, v0) {
+						same = false
+					}
+				}
+				if !same {
+					break
+				}
+			}
+			if !same {
+				continue
+			}
+		}
+		// one decision for the whole chain
+		res := in.truth(in.symBool(cond))
+		toShared := (pol == 0 && res) || (pol == 1 && !res)
+		if toShared {
+			fr.prevBlock, fr.block = b, shared
+		} else {
+			fr.prevBlock, fr.block = last, cur
+		}
+		in.stats.IfConverted++
+		return true
+	}
+	return false
+}
